@@ -399,7 +399,7 @@ func (e *SpecEnv) fieldOf(x Val, name string) Val {
 		}
 		f := st.Field(idx)
 		sn := e.u.em.sortOf(cur.Ty)
-		cur = Val{T: fmt.Sprintf("(%s %s)", e.u.em.fieldSel(sn, f.Name(), idx), cur.T), Ty: f.Type()}
+		cur = Val{T: e.u.em.sel(sn, f.Name(), idx, cur.T), Ty: f.Type()}
 	}
 	return cur
 }
